@@ -169,7 +169,7 @@ class TGen(F.Gen):
                     continue
                 for q in (2, 3):
                     for c in range(-a, -a + 7):
-                        if (a + c) // q >= lo and (b + c) // q <= hi and (b + c) // q > (a + c) // q:
+                        if c % q != 0 and (a + c) // q >= lo and (b + c) // q <= hi and (b + c) // q > (a + c) // q:
                             num = V(v) if c == 0 else op('par', op('sum', V(v), N(c)))
                             dc.append(op('quot', num, N(q)))
             if dc:
@@ -350,6 +350,8 @@ class TGen(F.Gen):
         kinds = ['assign', 'assign', 'aelem', 'aelem', 'real', 'real', 'logical', 'if', 'do', 'do']
         if 'ib' in self.arrays:
             kinds.append('belem')
+        if self.focus in self.EXPR_FEATURES or self.focus == 'fndiv':
+            kinds += ['assign'] * 5           # scalar dummies: the construct's value reaches the outputs unconverted
         for feat, w in (('while', 1), ('select', 1), ('selneg', 4), ('section', 2), ('conv', 2)):
             if feat in f:
                 kinds += [feat] * (w * (3 if self.focus == feat else 1))
@@ -515,10 +517,19 @@ class TGen(F.Gen):
         return out or [assign(V('t2'), N(1))]
 
     # ---- whole programs
+    EXPR_FEATURES = {'idiv': lambda e: e['k'] == 'quot' and e['c'][1]['k'] in ('int', 'neg') and e['c'][1].get('v', 1) != 0 and _is_intlit(e['c'][1]),
+                     'mod': lambda e: e['k'] == 'call' and e['f'] == 'mod',
+                     'sign': lambda e: e['k'] == 'call' and e['f'] == 'sign',
+                     'intcast': lambda e: e['k'] == 'call' and e['f'] == 'int'}
+
     def program(self, nstmts=6, depth=2):
-        for _ in range(60):
+        for _ in range(200):
             prog = self._program(nstmts, depth)
-            if self.focus is None or self.focus in self.used or self.focus in ('lb', 'intfn'):
+            if self.focus in self.EXPR_FEATURES:
+                # the construct must really occur (twice) in the emitted program
+                if sum(1 for e in _exprs(prog) if self.EXPR_FEATURES[self.focus](e)) >= 2:
+                    return prog
+            elif self.focus is None or self.focus in self.used or self.focus in ('lb', 'intfn'):
                 return prog
         raise MachineryError(f'generator: feature {self.focus} never produced')
 
@@ -537,7 +548,8 @@ class TGen(F.Gen):
         self.active_loops = []
         self.loop_range = {}
         self.frozen = set()
-        self.int_writable = ['k', 't1', 't2', 's']
+        # pools that test an expression-level construct assign to dummies only, so that the construct reaches the outputs
+        self.int_writable = ['k', 's'] if self.focus in ('idiv', 'mod', 'sign', 'intcast', 'fndiv', 'conv', 'idxdiv') else ['k', 't1', 't2', 's']
         self.int_scalars = ['n', 'm', 'k', 't1', 't2', 's']
         self.int_scalars_noarr = list(self.int_scalars)
         self.real_scalars = ['x', 'y']
@@ -582,6 +594,24 @@ class TGen(F.Gen):
                     inp[d['name']] = F.val_real(Fraction(rng.randint(-3, 5), 2))
             out.append(inp)
         return out
+
+
+def _is_intlit(e):
+    return e['k'] == 'int' or (e['k'] == 'neg' and e['c'][0]['k'] == 'int')
+
+
+def _exprs(prog):
+    def walk(e):
+        if isinstance(e, dict):
+            if 'k' in e:
+                yield e
+            for v in e.values():
+                yield from walk(v)
+        elif isinstance(e, list):
+            for v in e:
+                yield from walk(v)
+    for u in prog['units']:
+        yield from walk(u['body'])
 
 
 def gen_cases(rng, pools, core, counts, ninputs=3):
